@@ -104,7 +104,17 @@ def check_subscripts(run, rule, fns):
                         except ValueError:
                             ext_ = None
                         from .. import ranges as _rg
-                        iv = _rg.rng(idx, _rg.Ctx(g, env, run.facts.enums, loops)) if ext_ is not None else None
+                        # (a subscript inside `c ? table[i] : d` is evaluated only when c holds)
+                        g_here = g
+                        for n2_, ps2_ in ir.walk_with_parents(st["cond"] if st.get("k") == "IfCond" else st):
+                            if n2_ is nd:
+                                for p2_ in ps2_:
+                                    if isinstance(p2_, dict) and p2_.get("k") == "Cond":
+                                        if any(y_ is nd for y_ in ir.walk(p2_.get("a"))):
+                                            g_here = ir.f_and(g_here, ir.cond(p2_["c"], env))
+                                        elif any(y_ is nd for y_ in ir.walk(p2_.get("b"))):
+                                            g_here = ir.f_and(g_here, ir.f_not(ir.cond(p2_["c"], env)))
+                        iv = _rg.rng(idx, _rg.Ctx(g_here, env, run.facts.enums, loops)) if ext_ is not None else None
                         if iv is not None:
                             n += 1
                             inside = iv[0] >= 0 and iv[1] < ext_
@@ -114,10 +124,13 @@ def check_subscripts(run, rule, fns):
                                    "index %s ranges over [%d, %d]; the array has %d elements%s" % (
                                        show(idx)[:60], iv[0], iv[1], ext_, "" if outside else " (no bound on it was found on the path to the access)"))
                             continue
-                n += 1
                 cp = path(cont)
                 # a by-value local copy has the size of its source (`std::string dname = wire_dname`)
                 cpr = env.resolve_ref_path(cp) if cp else None
+                if cpr == ("this", "m_p") or (cp and len(cp) == 1 and env.defs.get(cp[0]) is not None and
+                                              path(ir.unwrap_all_casts(env.defs[cp[0]])) == ("this", "m_p")):
+                    continue              # a copy of the decoder's cursor: the window is R03.1's business
+                n += 1
                 ck = path_str(cpr) if cpr else show(cont)
                 names = {ck}
                 if cp:
